@@ -11,6 +11,9 @@ import json
 import os
 
 from ..core import scratch_dir, rm, pmap
+from . import c09
+
+preimport = c09.preimport  # the concurrent part runs under the controlled scheduler (vf/sched.py)
 
 ROOT_CTX = [None, {}, {"k": 1}, {"k": 2}, {"k": 1, "j": "@fn"}]
 EDGE = [None, {}, {"k": 3}]
@@ -207,6 +210,14 @@ def run(ctx):
     ctx.merge(pmap(pair_case, tasks, chunksize=8))
     ptasks = [(k, w, p, c) for k in ("mem", "fs", "fsc") for w in ("root", "root-then-local", "inner") for p in (False, True) for c in ROOT_CTX]
     ctx.merge(pmap(pfc_case, ptasks, chunksize=4))
+    # context arguments travel down the call stack of the calling THREAD only
+    cs = []
+    for be in ("mem",) if not thorough else ("mem", "fs+cache-all"):
+        cs.append(("%s|cold|context-chain-vs-plain-call" % be, be, "cold", [[("top1@ctx", 1)], [("solo_b", 2)]]))
+        cs.append(("%s|cold|context-chain-vs-same-leaf" % be, be, "cold", [[("top1@ctx", 1)], [("leaf", 1)]]))
+        cs.append(("%s|cold|context-chain-vs-plain-chain" % be, be, "cold", [[("top1@ctx", 1)], [("top2", 1)]]))
+    c09.concurrent_part(ctx, cs, "ctx", "a call chain made under context arguments in one thread while another thread makes calls without "
+                        "them (each call must be stored under exactly its own context arguments)", bound=2 if thorough else 1)
     ctx.extra["context_pair_cases"] = len(tasks)
     ctx.extra["prevent_further_calls_cases"] = len(ptasks)
     ctx.sample({"pair": list(tasks[len(tasks) // 2])})
@@ -215,6 +226,8 @@ def run(ctx):
 
 def replay(ctx, art):
     a = art["artefact"]
+    if "scn" in a:
+        return c09.replay_concurrent("C16", art)
     r = pair_case(tuple(a["pair"])) if "pair" in a else pfc_case(tuple(a["pfc"]))
     for v in r["violations"]:
         print(v[0], "\n", v[1])
